@@ -161,7 +161,7 @@ def _do_test(run, drv, pending, case, spec, st, mode, k, c, how, nsim, seed, tag
     rn, draws_txt, nsim_call, sims = None, "-", nsim, []
     label = f"session step {tag}: {mode}-test({how}) of forecast {k} against catalog {c}"
     try:
-        with base._capture(pe) as rec:
+        with base._capture(pe) as rec, base._capped_uniforms(20 * (nsim + 5) + 200):
             if how == "inject" and mode != "L":
                 rn = g.random((nsim, n))
                 res = tests[mode](fore, cat, num_simulations=nsim, random_numbers=rn)
